@@ -3,6 +3,11 @@ package main
 import (
 	"fmt"
 	"go/ast"
+	"go/token"
+	"os"
+	"path/filepath"
+	"regexp"
+	"strconv"
 	"strings"
 )
 
@@ -80,6 +85,23 @@ func init() {
 		e.c13Cond(t, s, reg, "calculateChanges", 1, "calcRemoveGuard", "calculateChanges: a key that is gone is removed")
 		e.c13Cond(t, s, kube, "diff", 0, "kubeDiffLenGuard", "kube diff: the sizes differ")
 		e.c13Cond(t, s, kube, "EventHandler.OnUpdate", 2, "kubeOnUpdateSkipGuard", "kube OnUpdate: nothing new")
+		// round 5: derived control-flow facts (not strings of the source)
+		e.c13BreakTargets(s, pub, "Publisher.doKeepAlive", "doKeepAliveBreaks")
+		e.c13BreakTargets(s, reg, "cluster.load", "loadBreaks")
+		e.c13LoopCaptures(s, []string{sub, reg, pub, cli, res + "discovbuilder.go", res + "subset.go", kube}, "loopVarCaptures")
+		e.c13GoVersion("goPerIterationLoopVars")
+		e.c13StmtDef(s, reg, "cluster.reload", "reloadStmts")
+		e.c13StmtDef(s, reg, "Registry.Unmonitor", "unmonitorStmts")
+		e.c13StmtDef(s, sub, "Subscriber.Close", "subscriberCloseStmts")
+		e.c13StmtDef(s, sub, "WithExactMatch", "withExactMatchStmts")
+		e.c13StmtDef(s, reg, "cluster.monitor", "clusterMonitorStmts")
+		e.c13StmtDef(s, reg, "cluster.addListener", "clusterAddListenerStmts")
+		e.c13StmtDef(s, pub, "NewPublisher", "newPublisherStmts")
+		e.c13StmtDef(s, pub, "Publisher.KeepAlive", "keepAliveStmts")
+		e.c13Cond(t, s, reg, "cluster.setupWatch", 1, "setupWatchRevGuard", "setupWatch: watch from the revision after the loaded one")
+		e.c13CallArgs(s, reg, "cluster.load", "Get", "loadGetArgs")
+		e.c13CallArgs(s, reg, "cluster.setupWatch", "Watch", "setupWatchArgs")
+		e.c13CallArgs(s, reg, "cluster.setupWatch", "WithRev", "setupWatchRevArgs")
 	})
 }
 
@@ -222,4 +244,235 @@ func (e *emitter) c13StmtDef(s *source, rel, goName, leanName string) {
 	var out []string
 	c13Stmts(s, fd.Body.List, &out)
 	e.stringList(leanName, "statements of `"+goName+"` in "+rel, out)
+}
+
+// c13BreakTargets: for every unlabelled `break` of the function, the kind of statement it leaves
+// (the innermost enclosing for / range / select / switch), in source order.
+func (e *emitter) c13BreakTargets(s *source, rel, goName, leanName string) {
+	fd := s.findFunc(rel, goName)
+	if fd == nil {
+		e.errors = append(e.errors, fmt.Sprintf("function %s not found in %s", goName, rel))
+		e.stringList(leanName, "MISSING: "+goName+" in "+rel, []string{"MISSING"})
+		return
+	}
+	var out []string
+	var walk func(n ast.Node, encl string)
+	walkList := func(list []ast.Stmt, encl string) {
+		for _, st := range list {
+			walk(st, encl)
+		}
+	}
+	walk = func(n ast.Node, encl string) {
+		switch x := n.(type) {
+		case nil:
+		case *ast.BranchStmt:
+			if x.Tok == token.BREAK {
+				if x.Label != nil {
+					out = append(out, "label "+x.Label.Name)
+				} else {
+					out = append(out, encl)
+				}
+			}
+		case *ast.BlockStmt:
+			walkList(x.List, encl)
+		case *ast.IfStmt:
+			walk(x.Body, encl)
+			if x.Else != nil {
+				walk(x.Else, encl)
+			}
+		case *ast.ForStmt:
+			walk(x.Body, "for")
+		case *ast.RangeStmt:
+			walk(x.Body, "for")
+		case *ast.SelectStmt:
+			walk(x.Body, "select")
+		case *ast.SwitchStmt:
+			walk(x.Body, "switch")
+		case *ast.TypeSwitchStmt:
+			walk(x.Body, "switch")
+		case *ast.CommClause:
+			walkList(x.Body, encl)
+		case *ast.CaseClause:
+			walkList(x.Body, encl)
+		case *ast.LabeledStmt:
+			walk(x.Stmt, encl)
+		}
+	}
+	walk(fd.Body, "none")
+	e.stringList(leanName, "what each `break` of `"+goName+"` in "+rel+" leaves", out)
+}
+
+// c13LoopCaptures: every function literal inside a `for … :=` / `for … := range` loop of the given files that uses the
+// loop's own variable (`<function>: <variable>`).  With a go.mod below 1.22 that variable is shared by all iterations:
+// a closure that runs after the loop has advanced (a goroutine) sees the last element.
+func (e *emitter) c13LoopCaptures(s *source, rels []string, leanName string) {
+	var out []string
+	for _, rel := range rels {
+		f := s.file(rel)
+		if f == nil {
+			continue
+		}
+		for _, d := range f.Decls {
+			fd, ok := d.(*ast.FuncDecl)
+			if !ok || fd.Body == nil {
+				continue
+			}
+			name := fd.Name.Name
+			if fd.Recv != nil && len(fd.Recv.List) == 1 {
+				t := fd.Recv.List[0].Type
+				if st, ok := t.(*ast.StarExpr); ok {
+					t = st.X
+				}
+				if id, ok := t.(*ast.Ident); ok {
+					name = id.Name + "." + name
+				}
+			}
+			ast.Inspect(fd.Body, func(n ast.Node) bool {
+				var vars []string
+				var body *ast.BlockStmt
+				switch x := n.(type) {
+				case *ast.RangeStmt:
+					if x.Tok == token.DEFINE {
+						for _, v := range []ast.Expr{x.Key, x.Value} {
+							if id, ok := v.(*ast.Ident); ok && id.Name != "_" {
+								vars = append(vars, id.Name)
+							}
+						}
+					}
+					body = x.Body
+				case *ast.ForStmt:
+					if as, ok := x.Init.(*ast.AssignStmt); ok && as.Tok == token.DEFINE {
+						for _, v := range as.Lhs {
+							if id, ok := v.(*ast.Ident); ok && id.Name != "_" {
+								vars = append(vars, id.Name)
+							}
+						}
+					}
+					body = x.Body
+				}
+				if body == nil || len(vars) == 0 {
+					return true
+				}
+				ast.Inspect(body, func(m ast.Node) bool {
+					fl, ok := m.(*ast.FuncLit)
+					if !ok {
+						return true
+					}
+					for _, v := range vars {
+						if c13UsesFree(fl, v) {
+							out = append(out, name+": "+v)
+						}
+					}
+					return false
+				})
+				return true
+			})
+		}
+	}
+	e.stringList(leanName, "function literals inside a loop that use the loop variable itself", out)
+}
+
+// c13UsesFree: the function literal mentions the identifier and neither declares it as a parameter nor with `:=` / var.
+func c13UsesFree(fl *ast.FuncLit, name string) bool {
+	declared, used := false, false
+	if fl.Type.Params != nil {
+		for _, fld := range fl.Type.Params.List {
+			for _, id := range fld.Names {
+				if id.Name == name {
+					declared = true
+				}
+			}
+		}
+	}
+	ast.Inspect(fl.Body, func(n ast.Node) bool {
+		switch x := n.(type) {
+		case *ast.AssignStmt:
+			if x.Tok == token.DEFINE {
+				for _, l := range x.Lhs {
+					if id, ok := l.(*ast.Ident); ok && id.Name == name {
+						declared = true
+					}
+				}
+			}
+		case *ast.SelectorExpr:
+			// x.name: only the operand can be the variable
+			ast.Inspect(x.X, func(m ast.Node) bool {
+				if id, ok := m.(*ast.Ident); ok && id.Name == name {
+					used = true
+				}
+				return true
+			})
+			return false
+		case *ast.KeyValueExpr:
+			ast.Inspect(x.Value, func(m ast.Node) bool {
+				if id, ok := m.(*ast.Ident); ok && id.Name == name {
+					used = true
+				}
+				return true
+			})
+			return false
+		case *ast.Ident:
+			if x.Name == name {
+				used = true
+			}
+		}
+		return true
+	})
+	return used && !declared
+}
+
+// c13GoVersion: does the module's go.mod select per-iteration loop variables (go >= 1.22)?
+func (e *emitter) c13GoVersion(leanName string) {
+	b, err := os.ReadFile(filepath.Join(*repo, "go.mod"))
+	if err != nil {
+		e.errors = append(e.errors, "go.mod not readable")
+		e.printf("def %s : Bool := false\n\n", leanName)
+		return
+	}
+	m := regexp.MustCompile(`(?m)^go (\d+)\.(\d+)`).FindStringSubmatch(string(b))
+	per := false
+	if m != nil {
+		maj, _ := strconv.Atoi(m[1])
+		min, _ := strconv.Atoi(m[2])
+		per = maj > 1 || (maj == 1 && min >= 22)
+	} else {
+		e.errors = append(e.errors, "go.mod has no go directive")
+	}
+	e.printf("/-- go.mod of the tree selects per-iteration loop variables (go >= 1.22) -/\ndef %s : Bool := %v\n\n", leanName, per)
+}
+
+// c13CallArgs: the argument lists (source text) of every call of the named method / function inside the function.
+func (e *emitter) c13CallArgs(s *source, rel, goName, callee, leanName string) {
+	fd := s.findFunc(rel, goName)
+	if fd == nil {
+		e.errors = append(e.errors, fmt.Sprintf("function %s not found in %s", goName, rel))
+		e.stringList(leanName, "MISSING: "+goName+" in "+rel, []string{"MISSING"})
+		return
+	}
+	var out []string
+	ast.Inspect(fd.Body, func(n ast.Node) bool {
+		c, ok := n.(*ast.CallExpr)
+		if !ok {
+			return true
+		}
+		nm := ""
+		switch f := c.Fun.(type) {
+		case *ast.SelectorExpr:
+			nm = f.Sel.Name
+		case *ast.Ident:
+			nm = f.Name
+		}
+		if nm == callee {
+			var args []string
+			for _, a := range c.Args {
+				args = append(args, s.src(a))
+			}
+			if c.Ellipsis.IsValid() {
+				args[len(args)-1] += "..."
+			}
+			out = append(out, strings.Join(args, " | "))
+		}
+		return true
+	})
+	e.stringList(leanName, "arguments of the `"+callee+"` calls of `"+goName+"` in "+rel, out)
 }
